@@ -56,6 +56,9 @@ void checkList(const std::vector<int> &idx)
 void body(V::Ctx &ctx)
 {
     Mem::Init();
+    // squid.conf default "configuration_includes_quoted_values off" (default_all() sets both before parsing starts)
+    ConfigParser::RecognizeQuotedValues = false;
+    ConfigParser::StrictMode = false;
     const int top = ctx.quick() ? 11 : 15;      // ranges over 0..top
     for (int a = 0; a <= top; ++a) pool.push_back({std::to_string(a), a, a});
     for (int a = 0; a <= top; ++a)
